@@ -522,7 +522,7 @@ partial def loop (inp : IO.FS.Stream) (out : IO.FS.Stream) (s : St) : IO Unit :=
     let (s', resp) := step s line
     out.putStrLn resp
     out.flush
-    loop inp out { s' with p := pmirror s'.enc s'.layer s'.cfg.bf s'.p toks }
+    loop inp out { s' with p := pcheckVal (pmirror s'.enc s'.layer s'.cfg.bf s'.p toks) toks resp }
 
 def main : IO Unit := do
   loop (← IO.getStdin) (← IO.getStdout) {}
